@@ -15,8 +15,11 @@
 // Oracle (the statement, over the composed decision): a label set that the selector keeps is selected
 // data. If the maximal dataset of such a label set holds a series matching the query's selectors inside
 // the query range, the TSDB behind it must be reached (or the store must answer with an explicit error,
-// which is not a skip). Label sets the selector drops are excluded by configuration: nothing is asserted
-// about them. Series-level filtering by the forwarded matchers is not a skip and is not judged.
+// which is not a skip), and the matchers it is asked with must let through every series of that label set
+// that matches the query and carries no label that is an external label elsewhere (a request that none of
+// the store's own series can satisfy is a skip in effect). Label sets the selector drops are excluded by
+// configuration: nothing is asserted about them. Series that use an external label name of another store
+// as an ordinary label are outside the selector's design and are not judged.
 package c05
 
 import (
@@ -128,12 +131,29 @@ func selQueries(r *vlib.R) [][]MatcherSpec {
 	return out
 }
 
+// metaValueConfigs: the proxy writes the kept label sets into a regular expression, values joined by "|".
+// One external label value that contains that separator (any regexp metacharacter behaves alike), alone
+// and next to a plain value of the same name.
+func metaValueConfigs() [][]labels.Labels {
+	return [][]labels.Labels{
+		{labels.FromStrings("a", "x|y")},
+		{labels.FromStrings("a", "x"), labels.FromStrings("a", "x|y")},
+	}
+}
+
+func hasMetaValue(ls labels.Labels) bool {
+	meta := false
+	ls.Range(func(l labels.Label) { meta = meta || regexp.QuoteMeta(l.Value) != l.Value })
+	return meta
+}
+
 // selGen: selector configuration x set of 1..2 stores x query matcher set. A store advertises 1..maxSets
 // label sets over {a,b}x{x,y} (the empty set included); two stores together advertise at most maxTotal
 // label sets (3 is the smallest size with one fully and one partially selected store). Time ranges are
 // fixed and overlapping: the time dimension is covered by the main part and does not interact with the
 // forwarded matchers.
-func selGen(r *vlib.R, cfgs [][]labels.Labels, maxTotal int) iter.Seq[Case] {
+func selGen(r *vlib.R, base [][]labels.Labels, maxTotal int) iter.Seq[Case] {
+	cfgs := append(append([][]labels.Labels(nil), base...), metaValueConfigs()...)
 	msets := selQueries(r)
 	spec := func(cfg []labels.Labels) StoreSpec {
 		s := StoreSpec{MinT: 1, MaxT: 2, LS: []map[string]string{}}
@@ -229,17 +249,63 @@ func refKeeps(rules []refRule, ls map[string]string) bool {
 // ---- real downstream ---------------------------------------------------------------------------------
 
 // stubTSDB is the only fake below a top-level store: it records that the TSDBStore got past its
-// external-label test and asked the database.
+// external-label test and asked the database, and with which matchers.
 type stubTSDB struct {
 	mint    int64
 	reached atomic.Int32
+	sel     atomic.Pointer[[]*labels.Matcher]
 }
 
 func (d *stubTSDB) ChunkQuerier(int64, int64) (storage.ChunkQuerier, error) {
 	d.reached.Add(1)
-	return storage.NoopChunkedQuerier(), nil
+	return &stubQuerier{ChunkQuerier: storage.NoopChunkedQuerier(), db: d}, nil
 }
 func (d *stubTSDB) StartTime() (int64, error) { return d.mint, nil }
+
+type stubQuerier struct {
+	storage.ChunkQuerier
+	db *stubTSDB
+}
+
+func (q *stubQuerier) Select(ctx context.Context, sorted bool, h *storage.SelectHints, ms ...*labels.Matcher) storage.ChunkSeriesSet {
+	cp := append([]*labels.Matcher(nil), ms...)
+	q.db.sel.Store(&cp)
+	return q.ChunkQuerier.Select(ctx, sorted, h, ms...)
+}
+
+// starved: the TSDB behind label set ls was asked with matchers dbm. Its own series carry, besides the
+// external labels ls (which the TSDB does not store), only labels that are external nowhere, i.e. c. If
+// one of them matches the query (with ls attached, inside the range) it must also pass dbm, otherwise the
+// store was asked for nothing it can hold. Returns the witness.
+func starved(ls labels.Labels, pm, dbm []*labels.Matcher) (string, bool) {
+	for _, v := range innerValues {
+		get := func(name string, withExt bool) string {
+			if name == "c" {
+				return v
+			}
+			if withExt {
+				return ls.Get(name)
+			}
+			return ""
+		}
+		ok := true
+		for _, m := range pm {
+			if !m.Matches(get(m.Name, true)) {
+				ok = false
+				break
+			}
+		}
+		if !ok {
+			continue
+		}
+		for _, m := range dbm {
+			if !m.Matches(get(m.Name, false)) {
+				return fmt.Sprintf("{c=%q}", v), true
+			}
+		}
+	}
+	return "", false
+}
 
 // serverClient turns a storepb.StoreServer into a store.Client by calling it synchronously (what
 // storepb.ServerAsClient does, without the goroutine), with the given advertisement.
@@ -406,6 +472,13 @@ func evalSel(r *vlib.R, c Case, pm []*labels.Matcher, sm []storepb.LabelMatcher)
 			switch {
 			case lf.db.reached.Load() > 0:
 				reached++
+				if dbm := lf.db.sel.Load(); dbm != nil && c.QMin <= st.spec.MaxT && c.QMax >= st.spec.MinT {
+					if w, bad := starved(lf.lset, pm, *dbm); bad {
+						r.Violation("selected-label-set-asked-with-forwarded-matchers-its-own-series-cannot-satisfy",
+							fmt.Sprintf("selector %v keeps label set %v of store %s (advertising %v); for query %v the TSDB behind it was asked with matchers %v, which its series %s (external labels %v attached: matches the query) cannot satisfy",
+								c.Sel.Relabel, lf.lset, st.client.name, st.client.lsets, pm, *dbm, w, lf.lset), c)
+					}
+				}
 				continue
 			case lf.client.errs.Load() > 0:
 				errored++ // an explicit error is not a skip
@@ -428,7 +501,12 @@ func evalSel(r *vlib.R, c Case, pm []*labels.Matcher, sm []storepb.LabelMatcher)
 			if req := st.client.lastReq.Load(); req != nil {
 				fwd = fmtMatchers(req.Matchers)
 			}
-			r.Violation("selected-label-set-with-matching-data-pruned-by-forwarded-external-label-matchers",
+			sig := "selected-label-set-with-matching-data-pruned-by-forwarded-external-label-matchers"
+			if hasMetaValue(lf.lset) {
+				// narrower class: the pruned label set itself carries a value that is not a literal regexp
+				sig = "selected-label-set-whose-external-label-value-has-regexp-metacharacters-pruned-by-forwarded-matchers"
+			}
+			r.Violation(sig,
 				fmt.Sprintf("selector %v keeps label set %v of store %s (advertising %v); the proxy forwarded matchers %s for query %v and the store behind it pruned that label set on its external labels although its maximal dataset has a matching series",
 					c.Sel.Relabel, lf.lset, st.client.name, st.client.lsets, fwd, pm), c)
 		}
